@@ -229,7 +229,7 @@ def check_probe(run, probe):
 
 
 def check(run):
-    n = 260 if run.tier == "quick" else 6000
+    n = 260 if run.tier == "quick" else 4000
     run.proof_obligations()
     binary = C.go_build("c20")
     out = os.path.join(C.WORK, "cases", "c20_%s.jsonl" % run.tier)
